@@ -7,7 +7,7 @@ INFO = dict(
  functions=['fiber_mutex_init', 'fiber_mutex_lock', 'fiber_mutex_trylock', 'fiber_mutex_unlock', 'fiber_mutex_unlock_internal',
             'fiber_manager_wait_in_mpsc_queue', 'fiber_manager_wake_from_mpsc_queue', 'fiber_manager_do_maintenance',
             'mpsc_fifo_push', 'mpsc_fifo_trypop', 'fiber_yield'],
- stubs=['contract kernel (e2/include/kernel_contract.h): fiber_manager_yield and fiber_scheduler_schedule are replaced by the contract '
+ stubs=['E1 counter step (e1/C03/mutex_e1.c): every atomic operation of fiber_mutex.c on mutex->counter preceded by interference (macro redirect of the stdatomic generics): further announcements, and - while the operation does not hold the mutex - any state 1-n; weak CAS may fail spuriously; wait/wake record their arguments', 'contract kernel (e2/include/kernel_contract.h): fiber_manager_yield and fiber_scheduler_schedule are replaced by the contract '
         'that C01/C02 establish for them (suspend = context saved, deferred actions run by the successor, resume only after schedule(); '
         'schedule asserts one wake-up per run); every fiber has a private manager'],
  assumptions=['assume-guarantee: the runtime contract of C01/C02 holds for yield/schedule', 'x86-TSO mapping of atomics; -O1 IR of clang-14'],
